@@ -150,6 +150,9 @@ func worker(scenarios []Scenario, sh string, budget time.Duration) {
 			}
 		}
 		share := time.Until(deadline) / time.Duration(left) * 4
+		if min := budget / 40; share < min {
+			share = min
+		}
 		if share < 5*time.Second {
 			share = 5 * time.Second
 		}
